@@ -197,10 +197,72 @@ func NewSandbox(dir string) *Sandbox {
 func (sb *Sandbox) Root() string { return filepath.Join(sb.Dir, "root") }
 func (sb *Sandbox) Home() string { return filepath.Join(sb.Dir, "home") }
 
+// Materialise makes the sandbox directory hold exactly state s. When the sandbox's
+// current content is known (the state captured after the previous execution), only the
+// difference is written.
 func (sb *Sandbox) Materialise(s *State) error {
+	if sb.last == nil {
+		return sb.materialiseFull(s)
+	}
+	last := sb.last
+	sb.last = nil // unknown until this function succeeds
+	// 1. remove files that must not exist or must change type
+	for p := range last.Files {
+		if _, keep := s.Files[p]; !keep || s.Dirs[p] {
+			if err := os.Remove(filepath.Join(sb.Dir, p)); err != nil {
+				return sb.materialiseFull(s)
+			}
+		}
+	}
+	// 2. remove directories that must not exist (deepest first)
+	var rm []string
+	for d := range last.Dirs {
+		if !s.Dirs[d] {
+			rm = append(rm, d)
+		}
+	}
+	sort.Sort(sort.Reverse(sort.StringSlice(rm)))
+	for _, d := range rm {
+		if err := os.RemoveAll(filepath.Join(sb.Dir, d)); err != nil {
+			return sb.materialiseFull(s)
+		}
+	}
+	// 3. create missing directories
+	var mk []string
+	for d := range s.Dirs {
+		if !last.Dirs[d] {
+			mk = append(mk, d)
+		}
+	}
+	sort.Strings(mk)
+	for _, d := range mk {
+		if err := os.MkdirAll(filepath.Join(sb.Dir, d), 0o755); err != nil {
+			return sb.materialiseFull(s)
+		}
+	}
+	// 4. write new or changed files
+	for p, data := range s.Files {
+		if old, ok := last.Files[p]; ok && bytes.Equal(old, data) {
+			continue
+		}
+		fp := filepath.Join(sb.Dir, p)
+		if err := os.WriteFile(fp, data, 0o644); err != nil {
+			if err2 := os.MkdirAll(filepath.Dir(fp), 0o755); err2 != nil {
+				return sb.materialiseFull(s)
+			}
+			if err := os.WriteFile(fp, data, 0o644); err != nil {
+				return sb.materialiseFull(s)
+			}
+		}
+	}
+	sb.last = s
+	return nil
+}
+
+func (sb *Sandbox) materialiseFull(s *State) error {
+	sb.last = nil
 	for _, sub := range []string{"root", "home"} {
 		p := filepath.Join(sb.Dir, sub)
-		// make everything removable (faults may have left odd modes)
 		if err := os.RemoveAll(p); err != nil {
 			return err
 		}
@@ -229,6 +291,7 @@ func (sb *Sandbox) Materialise(s *State) error {
 			}
 		}
 	}
+	sb.last = s
 	return nil
 }
 
@@ -344,10 +407,12 @@ func (sb *Sandbox) Exec(s *State, bin string, extraEnv []string, args ...string)
 	if err := sb.Materialise(s); err != nil {
 		return nil, nil, err
 	}
+	sb.last = nil
 	r := sb.Run(bin, extraEnv, args...)
 	post, err := sb.Capture()
 	if err != nil {
 		return nil, nil, err
 	}
+	sb.last = post
 	return r, post, nil
 }
